@@ -33,6 +33,27 @@ class Inv:
             raise self.error
 
 
+class Watcher:
+    """A dependent of an interface (what an adapter registry's lookup object is): told about every change of the
+    interface's resolution order, it looks names up right there, in the middle of the propagation.  The interface it
+    is told about already has its new __iro__; what it answers must follow that."""
+
+    def __init__(self, world, iface):
+        self.world, self.iface = world, iface
+
+    def changed(self, originally_changed):
+        w, I = self.world, self.iface
+        w.ctx.count('lookups_from_a_dependents_changed_callback')
+        for name in NAMES:
+            hits = [x for x in I.__iro__ if name in w.own.get(id(x), {})]
+            exp = w.own[id(hits[0])][name] if hits else None
+            got = I.get(name)
+            if got is not exp:
+                w.callback_mismatches.append({'iface': I.__name__, 'name': name, 'iro': nm(I.__iro__),
+                                              'expected_from': hits[0].__name__ if hits else None,
+                                              'got_from': getattr(getattr(got, 'interface', None), '__name__', None)})
+
+
 class World:
     def __init__(self, ctx, rng, tier):
         self.ctx, self.rng = ctx, rng
@@ -45,9 +66,16 @@ class World:
         self.invs = {}      # id(iface) -> [Inv]
         self.calls = []
         self.retired = []
+        self.callback_mismatches = []
+        self.watchers = []
         n = rng.randint(3, 10 if self.big else 7)
         for i in range(n):
             self.add(i)
+        for I in self.ifaces:
+            if rng.random() < 0.5:
+                wt = Watcher(self, I)
+                self.watchers.append(wt)
+                I.subscribe(wt)
 
     def add(self, i, twin_of=None):
         rng = self.rng
@@ -120,6 +148,8 @@ class World:
     def check(self, warm_tag):
         ctx = self.ctx
         rng = self.rng
+        if self.callback_mismatches:
+            ctx.violation('lookup-during-change-propagation-does-not-follow-new-order', self.callback_mismatches[0])
         order = list(self.ifaces)
         mode = rng.choice(['all-in-order', 'shuffled', 'subset'])
         if mode != 'all-in-order':
